@@ -251,6 +251,9 @@ class C10(World):
                 op["geom"] = self._gen_geom(rng, cfg)
             if kind == "scaled":
                 op["scale"] = round(mx.rand_scale(rng), 4) * (-1.0 if rng.random() < 0.2 else 1.0)
+                if rng.random() < 0.15:
+                    # a few parts per million from 1: far above rounding, inside every loose "is it one?" comparison
+                    op["scale"] = 1.0 + 4e-6
                 op["form"] = rng.choice(["float", "float", "list3_equal"])
             if kind == "scaled3":
                 s = [round(mx.rand_scale(rng), 3) for _ in range(3)]
